@@ -219,7 +219,7 @@ def check_sibling_routes(idx: Index, rep: Report):
             if isinstance(n, ast.Assign) and isinstance(n.targets[0], ast.Name) and n.targets[0].id in ("basis_circuit", "full_circuit"):
                 parts[n.targets[0].id] = norm(n.value)
             if isinstance(n, ast.Call) and norm(n.func) == "self.simulate":
-                parts["simulate"] = norm(n)
+                parts["simulate"] = norm(n.func) + "(" + ", ".join([norm(a) for a in n.args] + sorted(f"{k.arg}={norm(k.value)}" for k in n.keywords)) + ")"
         parts["iter"] = norm(loop[0].iter)
         return parts
     la, lb = loop_parts(a), loop_parts(b)
